@@ -334,6 +334,34 @@ func (p c03) Run(c *core.Ctx) {
 			}
 			c.Count("versions_checked", len(byName[nm]))
 		}
+		// a consistently wrapping processor (a wrapper when the early reference is produced, nothing afterwards): what a
+		// lookup from inside a callback was handed while the component was in creation is the version that is published
+		// (histories in which some creation failed are left to the recorded findings on failed attempts)
+		anyFailed := false
+		for _, e := range r.Tracer.Events() {
+			if e.Op == "create-fn" && e.Phase == "ret" && e.Err != "" {
+				anyFailed = true
+			}
+		}
+		for nm, pl := range plan {
+			if !pl.Early || pl.After || pl.Before || anyFailed {
+				continue
+			}
+			var final any
+			var err error
+			r.Guard(func() { final, err = r.App.GetComponentByName(nm) })
+			if err != nil || r.Panic != nil || r.Diverge != nil {
+				continue
+			}
+			for _, o := range r.Looked[nm] {
+				if o != final {
+					c.Fail("", fmt.Sprintf("stale version after a successful start: a lookup of %q from inside a callback was handed %s but the container publishes %s", nm, verOf(o), verOf(final)),
+						failDetail(sc, r, map[string]any{"plan": plan, "component": nm, "registry_trace": renderTrace(filterTrace(r.Tracer.Events(), nm), 120)}))
+					return
+				}
+				c.Count("looked_up_versions_checked", 1)
+			}
+		}
 		ev := r.Tracer.Events()
 		for name, k := range EarlyRunsPerCreation(ev) {
 			if k > 1 {
